@@ -225,6 +225,34 @@ class WReadline(Contract):
 
     # result = net[dpos:dpos'], either ending at the first 0x0A at or after dpos (and containing no other), or
     # containing no 0x0A at all when a one-byte read came back empty
+    def apply(self, eng, st, selfv, args, kwargs, site):
+        """Caller view (used by the refinement lemmas): exactly the terms verify() discharges."""
+        f = st.obj(selfv).fields
+        sock = f["_socket"]
+        sf = st.obj(sock).fields
+        arr = sf["arr"]
+        d0 = int_term(st.ghost["dpos"])
+        nl = NEXTLF_NET(d0)
+        tag = st.next_oid[0]
+        st.next_oid[0] += 1
+        d1, r1 = z3.Int(f"dpos_after_readline_{tag}"), z3.Int(f"rpos_after_readline_{tag}")
+        st.assume(nl >= d0, d1 >= d0, d1 <= r1, r1 >= sf["rpos"], r1 <= NET_END)
+        outs = []
+        for kind in ("through_LF", "stopped"):
+            s = st.fork()
+            if kind == "through_LF":
+                s.assume(d1 == nl + 1, byte_at(s, arr, nl) == 0x0A)
+            else:
+                s.assume(d1 <= nl)
+                s.obj(sock).fields["last"] = "failed"
+            if not feasible(s.pc):
+                continue
+            s.obj(sock).fields["rpos"] = r1
+            s.obj(selfv).fields["_buffer"] = SBytes([View(arr, d1, r1)], mutable=True)
+            s.ghost["dpos"] = SInt(d1)
+            outs.append((s, norm(SBytes([View(arr, d0, d1)]))))
+        return outs
+
     def verify(self, eng, inst):
         fi = extract.func(self.qualname)
         st = State()
@@ -274,6 +302,10 @@ class WReadline(Contract):
             eng.oblige(f"{self.qualname}.post.ends_at_first_LF_or_stopped_on_empty_read", s,
                        z3.Or(d1 == nl + 1, z3.And(d1 <= nl, z3.BoolVal(last in ("closed", "OSError", "TimeoutError", "failed")))),
                        observe={"len": d1 - d0, "first_LF_at": nl - d0}, note=last)
+            # the class invariant holds again afterwards (the next read()/readline() may assume it; refinement lemmas below)
+            r1 = s.obj(sock).fields["rpos"]
+            eng.oblige(f"{self.qualname}.post.invariant_buffer_is_rest", s,
+                       z3.And(buffer_is(s, selfv, arr, d1, r1), d1 <= r1, r1 <= NET_END), observe={"len": d1 - d0})
         return canary
 
 
@@ -322,3 +354,58 @@ class WInit(Contract):
             eng.oblige(f"{self.qualname}.post.invariant_established", s, buffer_is(s, selfv, arr, r0, r1))
             eng.oblige(f"{self.qualname}.post.options_stored", s, z3.BoolVal(f.get("_socket") == sock and "_bufsize" in f and "_encoding" in f))
         return canary
+
+
+# ---------------------------------------------------------------------------------------
+# Refinement lemmas (C11, last sentence: "the reader over a socket returns the same messages as over a file holding the same
+# bytes").  RTCMReader is verified against the *stream* contract ext.Stream.read / readline of contracts/reader.py only.  These
+# lemmas show, over the contracts, that every outcome the SocketWrapper contracts allow is an outcome the stream contract allows
+# under the ghost mapping  src := net, pos := dpos, end := net_end  - so every behaviour of the reader over a socket is one of
+# the behaviours already verified - and that the class invariant holds again, so the argument repeats for the next call.
+def refinement_lemmas():
+    from pyvc.contract import REGISTRY
+    from pyvc.symex import Engine
+    from contracts.reader import is_slice
+    eng = Engine(REGISTRY)
+    # ---- read(num)
+    st = State()
+    sock = new_socket(st)
+    w = new_wrapper(st, sock)
+    arr = st.obj(sock).fields["arr"]
+    d0 = int_term(st.ghost["dpos"])
+    num = z3.Int("num")
+    st.assume(num >= 0)
+    Q = "lemma.refines.SocketWrapper.read"
+    outs = REGISTRY[W + ".read"].apply(eng, st, w, [SInt(num)], {}, None)
+    eng.cover(f"{Q}.has_outcomes", st, z3.BoolVal(len(outs) == 2))
+    for s, v in outs:
+        n = bytes_len(as_sbytes(norm(v)))
+        d1 = int_term(s.ghost["dpos"])
+        r1 = s.obj(sock).fields["rpos"]
+        eng.oblige(f"{Q}.result_is_src_slice_at_pos", s, is_slice(v, arr, d0, d0 + n))            # d = src[pos:pos+|d|]
+        eng.oblige(f"{Q}.between_0_and_requested", s, z3.And(n >= 0, n <= num))                    # 0 <= |d| <= n
+        eng.oblige(f"{Q}.never_invents_bytes", s, d0 + n <= NET_END)                               # pos + |d| <= end
+        eng.oblige(f"{Q}.cursor_advances_by_result", s, d1 == d0 + n)                              # pos' = pos + |d|
+        eng.oblige(f"{Q}.result_is_bytes", s, z3.BoolVal(not (isinstance(v, SBytes) and v.mutable)))
+        eng.oblige(f"{Q}.invariant_again", s, z3.And(buffer_is(s, w, arr, d1, r1), d1 <= r1, r1 <= NET_END))
+    # ---- readline()
+    st = State()
+    sock = new_socket(st)
+    w = new_wrapper(st, sock)
+    arr = st.obj(sock).fields["arr"]
+    d0 = int_term(st.ghost["dpos"])
+    nl = NEXTLF_NET(d0)
+    Q = "lemma.refines.SocketWrapper.readline"
+    outs = REGISTRY[W + ".readline"].apply(eng, st, w, [], {}, None)
+    eng.cover(f"{Q}.has_outcomes", st, z3.BoolVal(len(outs) == 2))
+    for s, v in outs:
+        n = bytes_len(as_sbytes(norm(v)))
+        d1 = int_term(s.ghost["dpos"])
+        r1 = s.obj(sock).fields["rpos"]
+        eng.oblige(f"{Q}.result_is_src_slice_at_pos", s, is_slice(v, arr, d0, d0 + n))
+        eng.oblige(f"{Q}.never_invents_bytes", s, z3.And(n >= 0, d0 + n <= NET_END))
+        # the stream contract's line clause: ends at the first 0x0A at or after pos, or contains none
+        eng.oblige(f"{Q}.ends_at_first_LF_or_has_none", s, z3.Or(d0 + n <= nl, z3.And(nl < NET_END, d0 + n == nl + 1)))
+        eng.oblige(f"{Q}.cursor_advances_by_result", s, d1 == d0 + n)
+        eng.oblige(f"{Q}.invariant_again", s, z3.And(buffer_is(s, w, arr, d1, r1), d1 <= r1, r1 <= NET_END))
+    return eng.obligations
